@@ -242,14 +242,17 @@ def _rand_input(rs, code, shape):
     dt = _np_of(code)
     if dt is None:
         return None
-    u = np.asarray(rs.random_sample(tuple(shape)))
+    shape = tuple(shape)
+    u = np.asarray(rs.random_sample(shape), dtype=np.float64).reshape(shape)
     if dt == np.bool_:
-        return np.asarray(u > 0.5)
-    if dt.kind in "iu":
-        return np.asarray(u * 2).astype(dt)
-    if dt.kind == "c":
-        return (u + 1j * np.asarray(rs.random_sample(tuple(shape)))).astype(dt)
-    return (u * 0.8 + 0.1).astype(dt)
+        r = u > 0.5
+    elif dt.kind in "iu":
+        r = np.floor(u * 2)
+    elif dt.kind == "c":
+        r = u + 1j * np.asarray(rs.random_sample(shape)).reshape(shape)
+    else:
+        r = u * 0.8 + 0.1
+    return np.asarray(r).astype(dt).reshape(shape)
 
 
 def _strip_annotations(g):
